@@ -22,7 +22,9 @@ theorem genFormula_eq_sample (k : Kind) (a N n : ℝ) : genFormula k N n a = sam
   · simp only [genFormula, triangular, sample, TrigField.real_ofInt, TrigField.real_abs, Int.cast_ofNat, Int.cast_one]
     rw [div_div_eq_mul_div]; ring
   · simp [genFormula, blackman, sample]; ring
-  · simp [genFormula, Gen.Windows.cos, sample]
+  · -- robust against a re-association of the argument, e.g. `pi * (n / size)`
+    simp only [genFormula, Gen.Windows.cos, sample, TrigField.real_pi, TrigField.real_sin, TrigField.real_pow] <;>
+      first | rfl | (congr 2; ring)
 
 /-! ### symmetry of the closed forms about the middle of the span -/
 
